@@ -2152,6 +2152,9 @@ fn create_parser_thread(
     sort_by_time: bool,
     mut plugins_active: Vec<Box<dyn Plugin + Send>>,
 ) -> ParserThreadType {
+    // verification hook (feature adlt_verif): channel capacities from env ADLT_VERIF_CHANNEL_CAP
+    #[cfg(feature = "adlt_verif")]
+    let sync_channel = |default: usize| std::sync::mpsc::sync_channel(crate::chan_cap(default));
     let (tx_for_parse_thread, rx_from_parse_thread) = sync_channel(1024 * 1024);
     let (tx_for_lc_thread, rx_from_lc_thread) = sync_channel(512 * 1024);
     let (lcs_r, lcs_w) = evmap::Options::default()
